@@ -268,6 +268,31 @@ impl Payload for Wide {
     }
 }
 
+/// very large plain-data payload (320 bytes): beyond any size_of threshold below a cache-line multiple
+#[derive(Clone, Debug, PartialEq)]
+pub struct Big(pub [u64; 40]);
+
+impl Default for Big {
+    fn default() -> Self {
+        Big([0; 40])
+    }
+}
+
+impl Payload for Big {
+    const NAME: &'static str = "big";
+    fn from_serial(s: u64) -> Self {
+        let mut a = [0u64; 40];
+        for (i, x) in a.iter_mut().enumerate() {
+            *x = s.rotate_left(i as u32) ^ (i as u64).wrapping_mul(0x9E37_79B9_7F4A_7C15);
+        }
+        a[0] = s;
+        Big(a)
+    }
+    fn serial(&self) -> Option<u64> {
+        Some(self.0[0])
+    }
+}
+
 /// set value carrying its own key
 #[derive(Clone, Debug, Default, PartialEq)]
 pub struct SItem<P> {
